@@ -181,7 +181,8 @@ def analyse(unit, js, diags):
                     break
         label = None
         props = None
-        for s in spans:
+        # the primary span (the failed clause) first; a secondary span that covers a whole body says nothing about which clause
+        for s in prim + [x for x in spans if not x.get('is_primary') and x['line_end'] - x['line_start'] <= 3]:
             for ln in range(s['line_start'], s['line_end'] + 1):
                 if ln in unit.labels:
                     props, label = unit.labels[ln]
